@@ -31,6 +31,22 @@ pub struct Outcome {
     /// Violations of a property predicate observed directly on the implementation (not via the model):
     /// (property id, description).
     pub monitor: Vec<(String, String)>,
+    /// The implementation did not return (watchdog fired): the case is reported as is, not minimised.
+    pub hung: bool,
+    /// Per request line: schedule information observed on the implementation, appended (after " ; ") to the
+    /// line sent to the model, which uses it as its oracle (trace validation of nondeterministic steps).
+    pub hints: Vec<String>,
+}
+
+pub fn model_lines(lines: &[String], out: &Outcome) -> Vec<String> {
+    lines
+        .iter()
+        .enumerate()
+        .map(|(i, l)| match out.hints.get(i) {
+            Some(h) if !h.is_empty() => format!("{l} ; {h}"),
+            _ => l.clone(),
+        })
+        .collect()
 }
 
 pub trait Engine: Sync {
@@ -56,7 +72,7 @@ pub trait Engine: Sync {
     fn default_cases(&self, tier: Tier) -> usize;
     /// Lines that must be kept by the minimiser (e.g. the `case` header).
     fn pinned(&self, line: &str) -> bool {
-        line.starts_with("case")
+        line.starts_with("case") || line == "init" || line.starts_with("clock") || line.starts_with("src")
     }
 }
 
@@ -155,7 +171,7 @@ fn minimise(e: &dyn Engine, driver: &str, lines: &[String], budget: usize) -> Ve
     let mut chunk = (cur.len() / 2).max(1);
     let disagrees = |ls: &[String]| -> bool {
         let imp = e.run_impl(ls);
-        match run_driver(driver, e.name(), ls) {
+        match run_driver(driver, e.name(), &model_lines(ls, &imp)) {
             Ok(m) => first_diff(e, ls, &imp.resp, &m).is_some(),
             Err(_) => false,
         }
@@ -289,7 +305,7 @@ pub fn run(e: &dyn Engine, o: &Opts) -> Report {
             }
         }
         report.request_lines += c.lines.len();
-        batch.extend(c.lines.iter().cloned());
+        batch.extend(model_lines(&c.lines, &out));
         outcomes.push(out);
     }
     // Samples: first, middle, last generated case.
@@ -315,7 +331,7 @@ pub fn run(e: &dyn Engine, o: &Opts) -> Report {
                 let m = &model[off..off + n];
                 off += n;
                 if let Some(d) = first_diff(e, &c.lines, &outcomes[k].resp, m) {
-                    if report.disagreements.len() >= 5 {
+                    if report.disagreements.len() >= 5 || outcomes[k].hung {
                         // Count but do not minimise more than five.
                         report.disagreements.push(Disagreement {
                             origin: origin.clone(),
@@ -340,7 +356,7 @@ pub fn run(e: &dyn Engine, o: &Opts) -> Report {
                     }
                     let min = minimise(e, &o.driver, &c.lines, 400);
                     let imp = e.run_impl(&min);
-                    let mm = run_driver(&o.driver, e.name(), &min).unwrap_or_default();
+                    let mm = run_driver(&o.driver, e.name(), &model_lines(&min, &imp)).unwrap_or_default();
                     let fd = first_diff(e, &min, &imp.resp, &mm).unwrap_or(0);
                     let blamed = e
                         .blame(
